@@ -2,6 +2,9 @@ SPEC = {
     "id": "C17",
     "components": [
         {"comp": "zero_rtt", "module": "QV.Model.ZeroRtt", "quick": 1200, "thorough": 30000},
+        {"comp": "sim_c17", "module": "QV.Sys.MonC17", "quick": 60, "thorough": 1500},
+        {"comp": "sim_c17_data", "pymod": "sim_c17", "module": "QV.Sys.MonC01", "quick": 60, "thorough": 1500},
+        {"comp": "sim_c17_done", "pymod": "sim_c17", "module": "QV.Sys.MonC02", "quick": 60, "thorough": 1500},
     ],
     "assumptions": [
         "stream / flow-control part of C17 only (StreamsState); packet-space, TLS acceptance decision, server-side invisibility and early-data buffers are other components",
